@@ -20,9 +20,61 @@ from checks import semantics_common as sc
 from checks import emit_common as ec
 
 EXTRA_LANGUAGES = ("    - jsonschema: {}\n", "    - openapi: {}\n")
+EXTRA_LANGUAGES_COMPACT = ("    - jsonschema:\n        compact: true\n", "    - openapi:\n        compact: true\n")
+
+
+def render_with_intersections(schema, fmt, package, orig_render):
+    """Schemas whose index entry lists `inter` hints: the named definitions are spelled as the intersection (allOf / CUE
+    embedding) of the listed objects and an inline struct with the remaining fields. Everything else is sc.render."""
+    hints = schema.get("_inter_hints") or []
+    if not hints:
+        return orig_render(schema, fmt, package)
+    S = sc.defs_of(schema)
+    if fmt in ("jsonschema", "openapi"):
+        doc = json.loads(orig_render(schema, fmt, package))
+        defs = doc["definitions"] if fmt == "jsonschema" else doc["components"]["schemas"]
+        prefix = "#/definitions/" if fmt == "jsonschema" else "#/components/schemas/"
+        for h in hints:
+            inherited = {f["n"] for b in h["of"] for f in S[b]["fields"]}
+            d = defs[h["name"]]
+            rest = {"type": "object", "properties": {k: v for k, v in d["properties"].items() if k not in inherited}}
+            req = [r for r in d.get("required", []) if r not in inherited]
+            if req:
+                rest["required"] = req
+            defs[h["name"]] = {"allOf": [{"$ref": prefix + b} for b in h["of"]] + [rest]}
+        return json.dumps(doc, indent=1)
+    c = sc._Cue()
+    bodies = []
+    hmap = {h["name"]: h for h in hints}
+    for d in schema["defs"]:
+        if d["name"] in hmap:
+            h = hmap[d["name"]]
+            inherited = {f["n"] for b in h["of"] for f in S[b]["fields"]}
+            rest = c.ty({"k": "struct", "fields": [f for f in d["t"]["fields"] if f["n"] not in inherited]})
+            embeds = "".join("\t#%s\n" % b for b in h["of"])
+            bodies.append("#%s: {\n%s%s" % (d["name"], embeds, rest[2:]))
+        else:
+            bodies.append("#%s: %s" % (d["name"], c.ty(d["t"])))
+    head = "package %s\n\n" % package
+    if c.imports:
+        head += "import (\n%s)\n\n" % "".join('\t"%s"\n' % i for i in sorted(c.imports))
+    return head + "\n\n".join(c.hoisted + bodies) + "\n"
+
+
+def compact_of(sid):
+    """The output option `compact` belongs to the enumerated configuration: it alternates with the schema id."""
+    return sid % 2 == 1
+
+
+def _langs(sid):
+    return EXTRA_LANGUAGES_COMPACT if compact_of(sid) else EXTRA_LANGUAGES
+
 OUT_FORMATS = ("jsonschema", "openapi")
-CLAUSES = ("valid", "ref-resolves", "names", "required", "constraints", "enum", "default", "encode-validates", "own-parser")
+CLAUSES = ("valid", "ref-resolves", "names", "required", "constraints", "enum", "default", "encode-validates", "own-parser",
+           "roundtrip", "rejects-invalid")
 NQUICK = 30
+NSIM = 4500         # thorough: seeded tlc -simulate draws from the large catalogue (EmitSchemaMC!BigAt)
+MUST_LABELS = {"BreakBound": "constraints", "NonMember": "enum", "DropRequired": "required", "Probe": "constraints"}
 MAX_DISAGREE = 0.03
 
 
@@ -67,26 +119,45 @@ def select(ctx, cat):
     if not ctx.quick():
         return ids
     special = [i for i in ids if cat[i]["pos"] in ("fixed", "c12")]
-    rest = {i: cat[i] for i in ids if i not in special}
+    rest = {i: cat[i] for i in ids if i not in special and cat[i]["pos"] != "c12t"}    # c12t: thorough tier only
     return sorted(special + sc.select_schemas(ctx, rest, NQUICK))
+
+
+def draw_big(ctx, n):
+    """Thorough tier: `tlc -simulate -seed <seed>`: every behaviour of EmitSchemaMC (XMode = "sim") draws one schema of
+    the large catalogue (every leaf kind x every position; defaults x required-ness x nullability)."""
+    r = ctx.run_tlc("EmitSchemaMC", "EmitSchemaMC.cfg", workers=1, timeout=600, simulate="num=%d" % n, depth=3,
+                    constants={"XMode": '"sim"', "Ids": "{}", "Fuel": 3})
+    drawn = {}
+    lines = 0
+    for o in core.tagged_lines(r["out"], "INDEX"):
+        drawn[o["id"]] = o
+        lines += 1
+    if lines != n:
+        raise core.Inconclusive("EmitSchemaMC sim: %d INDEX lines for %d draws" % (lines, n))
+    os.remove(r["out"])
+    return drawn
 
 
 # ----------------------------------------------------------------------------------------------
 # cross-package generation: two CUE packages, one importing the other
 # ----------------------------------------------------------------------------------------------
 class _XCue(sc._Cue):
-    def __init__(self, fmap, alias, inside):
+    """CUE text of ONE package of a multi-package schema: references to definitions of other packages are spelled
+    `<package>.#<Name>` and recorded in `used` (the packages to import)."""
+
+    def __init__(self, pk, own, here, real):
         super().__init__()
-        self.fmap, self.alias, self.inside = fmap, alias, inside   # inside: rendering the foreign package itself
-        self.used = False
+        self.pk, self.own, self.here, self.real = pk, own, here, real
+        self.used = set()
 
     def _ref(self, name):
-        if name in self.fmap:
-            if self.inside:
-                return "#" + self.fmap[name]
-            self.used = True
-            return "%s.#%s" % (self.alias, self.fmap[name])
-        return "#" + name
+        q = self.pk.get(name, "")
+        n = self.own.get(name, name)
+        if q == self.here:
+            return "#" + n
+        self.used.add(q)
+        return "%s.#%s" % (self.real(q), n)
 
     def ty(self, t, field_ctx=False):
         if t["k"] == "ref":
@@ -96,26 +167,38 @@ class _XCue(sc._Cue):
         return super().ty(t, field_ctx)
 
 
-def render_xpkg(entry, main, xpkg):
-    """-> (text of the main package, text of the foreign package). One foreign package per schema."""
+def render_xpkgs(entry, main):
+    """-> ({real package name: CUE text}, {real package: set of real packages it imports}, {term pkg: real pkg}).
+    The main package is `main`, the foreign package `p` of the schema term is `main + p`."""
     schema, fs = entry["schema"], entry["foreign"]
-    if len({f["pkg"] for f in fs}) != 1:
-        raise sc.NotExpressible("more than one foreign package")
-    fmap = {f["name"]: f["as"] for f in fs}
-    cm, cx = _XCue(fmap, xpkg, False), _XCue(fmap, xpkg, True)
-    main_bodies = ["#%s: %s" % (d["name"], cm.ty(d["t"])) for d in schema["defs"] if d["name"] not in fmap]
-    x_bodies = ["#%s: %s" % (fmap[d["name"]], cx.ty(d["t"])) for d in schema["defs"] if d["name"] in fmap]
+    pk = {f["name"]: f["pkg"] for f in fs}
+    own = {f["name"]: f["as"] for f in fs}
 
-    def head(pkg, imports):
-        h = "package %s\n\n" % pkg
+    def real(p):
+        return main if p == "" else main + p
+    texts, deps = {}, {}
+    for p in [""] + sorted(set(pk.values())):
+        c = _XCue(pk, own, p, real)
+        bodies = ["#%s: %s" % (own.get(d["name"], d["name"]), c.ty(d["t"])) for d in schema["defs"] if pk.get(d["name"], "") == p]
+        if "" in c.used and p != "":
+            raise sc.NotExpressible("a foreign package refers to the main package (import cycle)")
+        imports = set(c.imports) | {"example.com/" + real(q) for q in c.used}
+        h = "package %s\n\n" % real(p)
         if imports:
             h += "import (\n%s)\n\n" % "".join('\t"%s"\n' % i for i in sorted(imports))
-        return h
-    imports = set(cm.imports)
-    if cm.used:
-        imports.add("example.com/" + xpkg)
-    return (head(main, imports) + "\n\n".join(cm.hoisted + main_bodies) + "\n",
-            head(xpkg, cx.imports) + "\n\n".join(cx.hoisted + x_bodies) + "\n")
+        texts[real(p)] = h + "\n\n".join(c.hoisted + bodies) + "\n"
+        deps[real(p)] = {real(q) for q in c.used}
+    # transitive imports: the CUE loader needs every package that is reachable
+    changed = True
+    while changed:
+        changed = False
+        for p in deps:
+            for q in list(deps[p]):
+                more = deps.get(q, set()) - deps[p]
+                if more:
+                    deps[p] |= more
+                    changed = True
+    return texts, deps, {p: real(p) for p in set(pk.values())}
 
 
 def generate_xpkg(ctx, batch, xids):
@@ -125,28 +208,31 @@ def generate_xpkg(ctx, batch, xids):
     for sid in xids:
         entry = batch.cat[sid]
         pkg = "x%04dc" % sid
-        xpkg = pkg + "x"
-        u = {"id": sid, "fmt": "cue", "pkg": pkg, "xpkg": xpkg, "status": "pending", "type": pkg + "." + entry["schema"]["root"]}
+        u = {"id": sid, "fmt": "cue", "pkg": pkg, "xpkgs": {}, "status": "pending", "type": pkg + "." + entry["schema"]["root"]}
         batch.units[pkg] = u
         try:
-            tm, tx = render_xpkg(entry, pkg, xpkg)
+            texts, deps, pmap = render_xpkgs(entry, pkg)
         except sc.NotExpressible as e:
             u["status"], u["why"] = "not_expressible", str(e)
             continue
-        u["text"] = tm + "\n// ---- package " + xpkg + "\n" + tx
-        for p, text in ((pkg, tm), (xpkg, tx)):
+        u["xpkgs"] = pmap
+        u["text"] = "".join("// ---- package %s\n%s\n" % (p, t) for p, t in sorted(texts.items()))
+        for p, text in texts.items():
             d = os.path.join(inputs, p)
             os.makedirs(d)
             open(os.path.join(d, p + ".cue"), "w").write(text)
         y = "debug: false\ninputs:\n"
-        y += "  - cue:\n      entrypoint: '%s'\n      package: %s\n" % (os.path.join(inputs, xpkg), xpkg)
-        y += "  - cue:\n      entrypoint: '%s'\n      package: %s\n      cue_imports:\n        - '%s:example.com/%s'\n" % (
-            os.path.join(inputs, pkg), pkg, os.path.join(inputs, xpkg), xpkg)
+        # dependencies first
+        for p in sorted(texts, key=lambda p: (len(deps[p]), p)):
+            y += "  - cue:\n      entrypoint: '%s'\n      package: %s\n" % (os.path.join(inputs, p), p)
+            if deps[p]:
+                y += "      cue_imports:\n" + "".join("        - '%s:example.com/%s'\n" % (os.path.join(inputs, q), q) for q in sorted(deps[p]))
         y += "output:\n  directory: '%l'\n  types: true\n  languages:\n"
         y += "    - go:\n        package_root: '%s/go'\n" % sc.MODULE
         for k, v in sorted(sc.GO_FLAGS_FULL.items()):
             y += "        %s: %s\n" % (k, "true" if v else "false")
-        y += "".join(EXTRA_LANGUAGES)
+        y += "".join(_langs(sid))
+        u["compact"] = compact_of(sid)
         yp = os.path.join(inputs, pkg + ".yaml")
         open(yp, "w").write(y)
         jobs.append({"id": pkg, "yaml": yp, "root": gen})
@@ -162,7 +248,7 @@ def generate_xpkg(ctx, batch, xids):
                 y = open(job["yaml"]).read()
                 for other in OUT_FORMATS:
                     if other != lang:
-                        y = y.replace("    - %s: {}\n" % other, "")
+                        y = y.replace("    - %s: {}\n" % other, "").replace("    - %s:\n        compact: true\n" % other, "")
                 yp = job["yaml"][:-5] + "." + lang + ".yaml"
                 open(yp, "w").write(y)
                 scratch_out = ctx.sub("xattr")
@@ -188,6 +274,41 @@ def _sem_gen_one(ctx, cwd, job, timeout):
     if p.returncode != 0 or not p.stdout.strip():
         raise core.Inconclusive("sem-gen failed on %s: %s" % (job["id"], p.stderr.decode(errors="replace")[-500:]))
     return json.loads(p.stdout.decode().splitlines()[0])
+
+
+def rerun_schema_only(ctx, batch):
+    """Units whose pipeline failed as a whole (one jenny's error loses every output): run the pipeline again with the schema
+    languages only, so that the emitted documents are still judged (the failure itself belongs to C02 / C04)."""
+    gen = batch.gen_dir
+    jobs = []
+    for u in batch.units.values():
+        if u["status"] != "codegen_error":
+            continue
+        yp = os.path.join(gen, "_in", u["pkg"] + ".yaml")
+        if not os.path.exists(yp):
+            continue
+        lines, out, skip = open(yp).read().split("\n"), [], False
+        for ln in lines:
+            if ln.startswith("    - "):
+                skip = ln.startswith("    - go:")
+            if not skip:
+                out.append(ln)
+        yp2 = yp[:-5] + ".schemaonly.yaml"
+        open(yp2, "w").write("\n".join(out))
+        jobs.append({"id": u["pkg"], "yaml": yp2, "root": gen})
+    if not jobs:
+        return
+    d = ctx.sub("schemaonly")
+    inp, outp = os.path.join(d, "in.ndjson"), os.path.join(d, "out.ndjson")
+    open(inp, "w").write("".join(json.dumps(j) + "\n" for j in jobs))
+    ctx.run_worker(["sem-gen"], stdin_path=inp, stdout_path=outp, timeout=900, cwd=gen)
+    for line in open(outp):
+        r = json.loads(line)
+        u = batch.units[r["id"]]
+        if r.get("ok"):
+            u["status"] = "schema_only"
+            u["go_error"] = u.get("why", "")[:300]
+            u["files"] = r["files"]
 
 
 def dump_ir(ctx, batch):
@@ -332,10 +453,10 @@ def at_path(doc, path):
 # ----------------------------------------------------------------------------------------------
 # the check
 # ----------------------------------------------------------------------------------------------
-def rename_sigma(entry, xpkg):
+def rename_sigma(entry, pmap):
     """The catalogue term with the foreign definitions named as the real IR names them (`<pkg>.<Name>`)."""
     fs = entry["foreign"]
-    m = {f["name"]: "%s.%s" % (xpkg, f["as"]) for f in fs}
+    m = {f["name"]: "%s.%s" % (pmap.get(f["pkg"], f["pkg"]), f["as"]) for f in fs}
 
     def rn(t):
         if isinstance(t, dict):
@@ -350,7 +471,7 @@ def rename_sigma(entry, xpkg):
         return t
     defs = [{"name": m.get(d["name"], d["name"]), "t": rn(d["t"])} for d in entry["schema"]["defs"]]
     return {"defs": defs, "root": entry["schema"]["root"],
-            "foreign": [{"name": m[f["name"]], "as": f["as"], "pkg": xpkg} for f in fs]}
+            "foreign": [{"name": m[f["name"]], "as": f["as"], "pkg": pmap.get(f["pkg"], f["pkg"])} for f in fs]}
 
 
 def run(ctx):
@@ -359,17 +480,33 @@ def run(ctx):
     if ctx.worker is None:
         ctx.build_worker()
     cat = load_index(ctx)
+    n_drawn = 0
     if replay:
         rid = replay["replay"]["schema_id"]
+        if rid not in cat and replay["replay"].get("pos", "").startswith("big"):
+            # a schema of the large catalogue: its id is its position there, re-emitted through the cases run
+            cat[rid] = {"id": rid, "leaf": replay["replay"]["leaf"], "pos": replay["replay"]["pos"], "cons": True,
+                        "schema": replay["replay"]["schema"], "foreign": replay["replay"]["foreign"]}
         if rid not in cat or cat[rid]["schema"] != replay["replay"]["schema"]:
             raise core.Inconclusive("the catalogue changed: schema %s is no longer the replay's schema" % rid)
         ids = [rid]
-    else:
+    elif ctx.quick():
         ids = select(ctx, cat)
+    else:
+        drawn = draw_big(ctx, NSIM)
+        cat.update(drawn)
+        ids = sorted(cat)
+        n_drawn = len(drawn)
     cases, expects, _ = load_cases(ctx, ids)
     missing = [i for i in ids if not cases.get(i) or i not in expects]
     if missing:
         raise core.Inconclusive("no documents / expectation for schemas %s" % missing[:5])
+    for i in ids:
+        if expects[i]["schema"] != cat[i]["schema"]:
+            raise core.Inconclusive("schema %d of the cases run is not the indexed / replayed schema" % i)
+    for i in ids:
+        if cat[i].get("inter"):
+            cat[i]["schema"] = dict(cat[i]["schema"], _inter_hints=cat[i]["inter"])
 
     # ---- twin fidelity: python EmitDoc / EAccepts against TLC's on the catalogue terms
     for i in ids:
@@ -377,9 +514,10 @@ def run(ctx):
         term = {"defs": e["schema"]["defs"], "root": e["schema"]["root"], "foreign": e["foreign"]}
         if ec.emit_doc(term, "") != expects[i]["expect"]:
             raise core.Inconclusive("python and TLC disagree on EmitDoc of schema %d" % i)
-        for x in expects[i]["xexpect"]:
-            if ec.emit_doc(term, x["pkg"]) != x["expect"]:
-                raise core.Inconclusive("python and TLC disagree on EmitDoc(%s) of schema %d" % (x["pkg"], i))
+        xe = expects[i]["xexpect"]
+        for xp in ({f["pkg"] for f in e["foreign"]}):
+            if not isinstance(xe, dict) or ec.emit_doc(term, xp) != xe.get(xp):
+                raise core.Inconclusive("python and TLC disagree on EmitDoc(%s) of schema %d" % (xp, i))
         exp = expects[i]["expect"]
         DD = ec.edefs({"defs": exp})
         rootname = ec.own_name(e["foreign"], e["schema"]["root"])
@@ -396,9 +534,21 @@ def run(ctx):
     formats = sc.FORMATS
     if replay and replay["replay"].get("input_format"):
         formats = (replay["replay"]["input_format"],)
-    sc.generate(ctx, batch, None, EXTRA_LANGUAGES, formats)
+    # the output options vary per package: sc.generate asks sc.pipeline_yaml for every pipeline file
+    orig_render = sc.render
+    sc.render = lambda schema, fmt, package: render_with_intersections(schema, fmt, package, orig_render)
+    orig_yaml = sc.pipeline_yaml
+    sc.pipeline_yaml = lambda fmt, path, package, go_flags, extra=(): orig_yaml(fmt, path, package, go_flags, _langs(int(package[1:5])))
+    try:
+        sc.generate(ctx, batch, None, EXTRA_LANGUAGES, formats)
+    finally:
+        sc.pipeline_yaml = orig_yaml
+        sc.render = orig_render
+    for u in batch.units.values():
+        u["compact"] = compact_of(u["id"])
     generate_xpkg(ctx, batch, xids)
     batch.ids = ids
+    rerun_schema_only(ctx, batch)
     sc.build(ctx, batch)
     dump_ir(ctx, batch)
     status0 = collections.Counter(u["status"] for u in batch.units.values())
@@ -439,14 +589,14 @@ def run(ctx):
             u["skip"] = "ir_unsupported: %s" % e
             continue
         entry = cat[u["id"]]
-        sigma = rename_sigma(entry, u.get("xpkg", "x"))
+        sigma = rename_sigma(entry, u.get("xpkgs", {}))
         u["ir_equals_source"] = ec.term_equal(u["term"], sigma)
         if not u["ir_equals_source"]:
             ir_diff_classes["%s: %s" % (u["fmt"], ec.term_first_difference(sigma, u["term"]) or "order")] += 1
         stats["unit:ir_equals_source" if u["ir_equals_source"] else "unit:ir_differs_from_source"] += 1
         if not u.get("ir_openapi_same", True):
             stats["unit:openapi_ir_differs"] += 1
-        for which, pkgname in (("main", u["pkg"]),) + ((("foreign", u["xpkg"]),) if u.get("xpkg") else ()):
+        for which, pkgname in (("main", u["pkg"]),) + tuple(("foreign", rp) for _, rp in sorted(u.get("xpkgs", {}).items())):
             for fmt in OUT_FORMATS:
                 path = os.path.join(gen, fmt, "%s.%s.json" % (pkgname, fmt))
                 rec = {"unit": u, "fmt": fmt, "pkgname": pkgname, "which": which,
@@ -471,23 +621,37 @@ def run(ctx):
         if u["status"] != "ok" or "term" not in u:
             continue
         for c in cases[u["id"]]:
-            if c["accepts"]:
+            if c["accepts"] or c["f"] in ("BreakBound", "NonMember", "Probe"):
                 cmds.append({"op": "doc", "id": "%s/%d" % (u["pkg"], c["n"]), "type": u["type"], "doc": c["py"]})
         cmds.append({"op": "newv", "id": "%s/new" % u["pkg"], "type": u["type"]})
     recs = sc.run_driver(ctx, batch, cmds, "enc") if cmds else {}
     encs = {}    # pkg -> [dict(src, enc, judged, case)]
     for u in batch.units.values():
-        if u["status"] != "ok" or "term" not in u:
+        if "term" not in u or u["status"] not in ("ok", "not_executable", "schema_only"):
             continue
+        executable = u["status"] == "ok"     # packages that do not compile: only the documents themselves (raw) are validated
         root = cat[u["id"]]["schema"]["root"]
         S = sc.defs_of(u["term"])
         if root not in S:
             stats["unit:ir_without_root"] += 1
             continue
         lst, seen = [], set()
-        items = [("doc", c, recs.get("%s/%d" % (u["pkg"], c["n"]))) for c in cases[u["id"]] if c["accepts"]]
-        items.append(("new", None, recs.get("%s/new" % u["pkg"])))
+        items = [("doc", c, recs.get("%s/%d" % (u["pkg"], c["n"]))) for c in cases[u["id"]] if c["accepts"]] if executable else []
+        if executable:
+            items.append(("new", None, recs.get("%s/new" % u["pkg"])))
+        # one-place INVALID documents: the Go re-encoding where the generated code decodes them (broken bound, non-member),
+        # the document itself where no Go value can produce it (a required field is missing)
+        if executable:
+            items += [("invalid", c, recs.get("%s/%d" % (u["pkg"], c["n"]))) for c in cases[u["id"]]
+                      if c["f"] in ("BreakBound", "NonMember") or (c["f"] == "Probe" and not c["accepts"])]
+        items += [("raw", c, {"enc": c["py"]}) for c in cases[u["id"]] if c["f"] == "DropRequired" or (c["f"] == "Probe" and not c["accepts"])]
+        if not executable:
+            # the generated Go does not compile (C02's subject): the documents the schema accepts stand in for the encodings
+            items += [("rawvalid", c, {"enc": c["py"]}) for c in cases[u["id"]] if c["accepts"]]
         for src, c, r in items:
+            if src == "invalid" and r is not None and r.get("std_err") is not None:
+                stats["enc:invalid_not_decodable"] += 1
+                continue
             if r is None or r.get("panic") or r.get("unknown_type"):
                 stats["enc:driver_" + ("panic" if r and r.get("panic") else "none")] += 1
                 continue
@@ -512,7 +676,7 @@ def run(ctx):
             if src == "new":
                 # New<Root>() is a value of the type; it is judged when the IR accepts its encoding
                 stats["enc:new_judged" if judged else "enc:new_not_a_valid_value"] += 1
-            lst.append({"src": src, "case": c, "enc": enc, "jv": jv, "judged": judged})
+            lst.append({"src": src, "case": c, "enc": enc, "jv": jv, "judged": judged, "must": src in ("invalid", "raw")})
         encs[u["pkg"]] = lst
 
     # ---- validators
@@ -539,6 +703,8 @@ def run(ctx):
     trace = []       # (record, python diffs set, meta)
     schemas, sidx = [], {}
     emitted = []
+    reparsed = []
+    rt_unsupported = collections.Counter()
 
     def si_of(u):
         if u["pkg"] not in sidx:
@@ -589,6 +755,8 @@ def run(ctx):
             stats["emitted:description_incomplete"] += 1
         term = u["term"]
         exp = ec.emit_doc(term, rec["tpkg"])
+        # objects the IR spells as intersections (own names): a witness class of their own
+        inter_names = {ec.own_name(term["foreign"], n) for n in term.get("_inter", [])}
         dset = set(ec.doc_diffs(exp, desc))
         dang = ec.dangling(desc)
         if bool(dang) != bool(bad_refs):
@@ -605,6 +773,32 @@ def run(ctx):
         ei = len(emitted)
         trace.append(({"kind": "emit", "si": si_of(u), "ei": ei, "pkg": rec["tpkg"], "valid": valid, "own": own, "refs": not bad_refs},
                       pyd, ("emit", i)))
+        # ---- round trip: the emitted document read back by cog's own parser
+        own_ir = (g["js_own"] if fmt == "jsonschema" else g["oa_own"]).get("ir") if own else None
+        if own_ir:
+            try:
+                rterm = ec.ir_to_term(own_ir, rec["pkgname"])
+            except ec.Unsupported as ex:
+                stats["roundtrip:reparsed_ir_unsupported"] += 1
+                rt_unsupported[str(ex)[:60]] += 1
+                rterm = None
+            if rterm is not None:
+                got = ec.emit_doc(rterm, "")
+                gnames = {x["name"] for x in got}
+                present = [e for e in exp if e["name"] in gnames]
+                stats["roundtrip:objects_compared"] += len(present)
+                stats["roundtrip:objects_not_declared_by_parser"] += len(exp) - len(present)
+                rds = {("rt-" + c, pth, w) for (c, pth, w) in ec.doc_diffs(present, {"defs": got})}
+                reparsed.append(rterm)
+                trace.append(({"kind": "rt", "si": si_of(u), "ri": len(reparsed), "pkg": rec["tpkg"]}, rds, ("rt", i)))
+                per_clause["%s/roundtrip" % fmt] += 1
+                rnames = collections.Counter(e["name"] for e in exp)
+                for (c, pth, w) in sorted(rds):
+                    cls = "%s:%s" % (c[3:], "collision" if rnames.get(pth[0], 0) > 1 else "intersection" if pth[0] in inter_names else w)
+                    fail("roundtrip", cls, "round trip: %s (%s) at %s differs between the IR and what cog's %s parser reads back from the %s "
+                         "document cog emitted for package %s" % (c[3:], w, "/".join(pth), fmt, fmt, rec["pkgname"]),
+                         {"path": list(pth), "expected": [e for e in exp if e["name"] == pth[0]][:1],
+                          "reparsed": [x for x in got if x["name"] == pth[0]][:1]})
         # vacuity: what this document exercised
         for cl in ("valid", "own-parser"):
             per_clause["%s/%s" % (fmt, cl)] += 1
@@ -612,6 +806,8 @@ def run(ctx):
             per_clause["%s/ref-resolves" % fmt] += 1
         names_count = collections.Counter(e["name"] for e in exp)
         per_clause["%s/names" % fmt] += len(exp)
+        if inter_names:
+            per_construct["intersection"] += 1
         S = sc.defs_of(term)
         for d in term["defs"]:
             if d["name"] not in {e["src"] for e in exp}:
@@ -638,6 +834,8 @@ def run(ctx):
             cls = w
             if names_count.get(path[0], 0) > 1:
                 cls = "collision"
+            elif path[0] in inter_names:
+                cls = "intersection"
             elif clause == "names" and w == "object" and any(e["name"] == path[0] and ec.pkg_of(term["foreign"], e["src"]) != rec["tpkg"] for e in exp):
                 cls = "foreign-object"
             fail(clause, cls, "%s: %s at %s of the %s document of package %s (IR vs emitted)" % (clause, w, "/".join(path), fmt, rec["pkgname"]),
@@ -669,9 +867,33 @@ def run(ctx):
             if ea != ok:
                 pyd.add(("DescVsValidator", (), ""))
                 disagree += 1
-            trace.append(({"kind": "enc", "si": si_of(u), "ei": ei, "obj": root, "doc": e["jv"], "judged": e["judged"], "validator": ok},
-                          pyd, ("enc", i, e)))
+            if e["must"] and not e["judged"] and ok:
+                pyd.add(("accepts-invalid", (), ""))
+            trace.append(({"kind": "enc", "si": si_of(u), "ei": ei, "obj": root, "doc": e["jv"], "judged": e["judged"], "validator": ok,
+                           "must": e["must"]}, pyd, ("enc", i, e)))
             n_enc_records += 1
+            if e["must"] and not e["judged"]:
+                c = e["case"]
+                per_clause["%s/rejects-invalid" % fmt] += 1
+                per_clause["%s/rejects-invalid:%s" % (fmt, c["f"])] += 1
+                if ok:
+                    pos, kind, bk = sc.walk({"defs": term["defs"], "root": root}, c["p"], c["py"])
+                    clause = MUST_LABELS[c["f"]]
+                    if c["f"] == "NonMember" and kind == "const":
+                        clause = "constraints"
+                    cls = "accepts-invalid:%s%s" % (kind, "." + "+".join(bk) if bk else "")
+                    if any(cl == "names" and pth[0] in inter_names for (cl, pth, _w) in dset):
+                        cls = "accepts-invalid:intersection"     # fields of an intersection (object or field type) were not emitted
+                    if fmt == "openapi" and rec["notes"]:
+                        # is the acceptance due to draft-07 keywords OpenAPI 3.0 does not have (const, numeric exclusive bounds)?
+                        ldesc = ec.describe_document(rec["json"], fmt, lenient=True)[0]
+                        LD = ec.edefs(ldesc)
+                        if rootown in LD and not ec.eaccepts(LD, LD[rootown], e["enc"]):
+                            clause, cls = "constraints", "accepts-invalid:draft07-keyword"
+                    fail(clause, cls, "the emitted %s document accepts %s (%s at %s; %s), which the IR rejects: the %s is not carried over" % (
+                        fmt, sc.dumps(e["enc"]), c["f"], ".".join(c["p"]) or "<root>",
+                        "the document itself" if e["src"] == "raw" else "Go re-encoding of %s" % sc.dumps(c["py"]), clause),
+                        {"encoded": e["enc"], "source_doc": c["py"], "label": c["f"], "path": c["p"]})
             if e["judged"]:
                 per_clause["%s/encode-validates" % fmt] += 1
                 if e["src"] == "new":
@@ -696,12 +918,13 @@ def run(ctx):
                 else:
                     cls = "%s:%s:%s" % (kind, vclass(v), kw)
                 fail("encode-validates", cls, "the Go encoding %s (%s) is rejected by the emitted %s document at %s: %s" % (
-                    sc.dumps(e["enc"]), "json.Marshal(New%s())" % root if e["src"] == "new" else "re-encoding of %s" % sc.dumps(e["case"]["py"]),
+                    sc.dumps(e["enc"]), "json.Marshal(New%s())" % root if e["src"] == "new" else
+                    "the document itself: the generated Go package does not compile" if e["src"] == "rawvalid" else "re-encoding of %s" % sc.dumps(e["case"]["py"]),
                     fmt, "/".join(segs) or "<root>", err["msg"]),
                     {"encoded": e["enc"], "source_doc": e["case"]["py"] if e["case"] else None, "validator_error": err})
 
     # ---- TLC recomputes everything on the recorded facts
-    tlc_fail, tr = run_trace(ctx, schemas, emitted, [t[0] for t in trace])
+    tlc_fail, tr = run_trace(ctx, schemas, emitted, [t[0] for t in trace], reparsed=reparsed)
     agree = 0
     for n, (r, pyd, meta) in enumerate(trace):
         tv = tlc_fail.get(n, set())
@@ -728,12 +951,12 @@ def run(ctx):
             for cl in CLAUSES:
                 if per_clause["%s/%s" % (fmt, cl)] == 0:
                     vac.append("%s/%s" % (fmt, cl))
-        for cons in REQUIRED_CONSTRUCTS:
+        for cons in REQUIRED_CONSTRUCTS + (() if ctx.quick() else THOROUGH_CONSTRUCTS):
             if per_construct[cons] == 0:
                 vac.append("construct:" + cons)
         if vac:
             raise core.Inconclusive("vacuous clauses / constructs (never exercised on real emitted documents): %s" % vac)
-        binding = selftest(ctx, schemas, emitted, trace)
+        binding = selftest(ctx, schemas, emitted, trace, reparsed)
     else:
         binding = None
 
@@ -753,8 +976,11 @@ def run(ctx):
             not_obs["%s/%s: %s" % (u["fmt"], u["status"] if u["status"] != "ok" else "skipped",
                                    (u.get("skip") or u.get("why") or "; ".join(u.get("diagnostics", [])) or "")[:120])] += 1
     cov = {
-        "states": sum(r["distinct"] for r in ctx.tlc_runs),
-        "transitions": sum(r["generated"] for r in ctx.tlc_runs),
+        # the simulate run reports every candidate successor TLC looked at; only the drawn schemas count as states
+        "states": sum(r["distinct"] for r in ctx.tlc_runs if "-simulate" not in r["cmd"]) + n_drawn,
+        "transitions": sum(r["generated"] for r in ctx.tlc_runs if "-simulate" not in r["cmd"]) + n_drawn,
+        "drawn_from_large_catalogue": n_drawn, "draws": NSIM if n_drawn else 0,
+        "compact_documents": sum(1 for t in trace if t[2][0] == "emit" and docs[t[2][1]]["unit"].get("compact")),
         "traces_validated_against_impl": agree,
         "real_records_validated_by_tlc_trace_spec": len(trace),
         "exhaustive": not ctx.quick(),
@@ -782,6 +1008,7 @@ def run(ctx):
 
 CONSTRUCT_CLAUSE = {"required": "required", "optional": "required", "bound": "constraints", "const": "constraints",
                     "enum": "enum", "ienum": "enum", "default": "default"}
+THOROUGH_CONSTRUCTS = ("intersection",)
 REQUIRED_CONSTRUCTS = ("cross-package", "name-collision", "union", "dunion", "map", "const", "nullable", "any",
                        "bound:ge", "bound:gt", "bound:le", "bound:lt", "bound:minLength", "bound:maxLength",
                        "enum", "ienum", "default", "required", "optional", "ref", "arr", "anon-struct")
@@ -816,9 +1043,11 @@ def constructs_of(t, top=True):
     return out
 
 
-def run_trace(ctx, schemas, emitted, records, strict=False, name="c12"):
+def run_trace(ctx, schemas, emitted, records, strict=False, name="c12", reparsed=()):
     d = ctx.sub("trace-" + name)
     tp, sp, ep = os.path.join(d, "trace.ndjson"), os.path.join(d, "schemas.json"), os.path.join(d, "emitted.json")
+    rp = os.path.join(d, "reparsed.json")
+    json.dump(list(reparsed), open(rp, "w"))
     with open(tp, "w") as f:
         for r in records:
             f.write(json.dumps(r, separators=(",", ":")) + "\n")
@@ -827,7 +1056,7 @@ def run_trace(ctx, schemas, emitted, records, strict=False, name="c12"):
     if not records:
         return {}, None
     r = ctx.run_tlc("EmitSchemaTrace", "EmitSchemaTrace.cfg", workers=1, timeout=3000,
-                    files={"trace.ndjson": tp, "schemas.json": sp, "emitted.json": ep},
+                    files={"trace.ndjson": tp, "schemas.json": sp, "emitted.json": ep, "reparsed.json": rp},
                     constants={"Strict": "TRUE" if strict else "FALSE"}, allow_violation=strict)
     if strict:
         return None, r
@@ -845,7 +1074,7 @@ def run_trace(ctx, schemas, emitted, records, strict=False, name="c12"):
     return out, r
 
 
-def selftest(ctx, schemas, emitted, trace):
+def selftest(ctx, schemas, emitted, trace, reparsed=()):
     """DESIGN 7 rule 6: genuine records pass the Strict trace spec; the same records with ONE recorded field corrupted
     (a `required` flag of the emitted description flipped; the validator's verdict flipped) are rejected."""
     good_emit = [t for t in trace if t[2][0] == "emit" and not t[1]
@@ -871,10 +1100,26 @@ def selftest(ctx, schemas, emitted, trace):
             r1["validator"] = not r1["validator"]
         _, r = run_trace(ctx, s1, e1, [r1], strict=True, name="selftest-" + name)
         res[name] = r["violated"]
+    # round trip: a genuine record passes; the same record with a `required` flag of the RE-PARSED schema flipped is rejected
+    good_rt = [t for t in trace if t[2][0] == "rt" and not t[1]
+               and any(d["t"]["k"] == "struct" and d["t"]["fields"] for d in reparsed[t[0]["ri"] - 1]["defs"])]
+    if good_rt:
+        rec = good_rt[ctx.seed % len(good_rt)][0]
+        for name in ("good-rt", "bad-rt"):
+            rp = json.loads(json.dumps(reparsed[rec["ri"] - 1]))
+            if name == "bad-rt":
+                for d in rp["defs"]:
+                    if d["t"]["k"] == "struct" and d["t"]["fields"]:
+                        d["t"]["fields"][0]["req"] = not d["t"]["fields"][0]["req"]
+                        break
+            _, r = run_trace(ctx, [schemas[rec["si"] - 1]], [], [dict(rec, si=1, ri=1)], strict=True, name="selftest-" + name, reparsed=[rp])
+            res[name] = r["violated"]
+        if res["good-rt"] or not res["bad-rt"]:
+            raise core.Inconclusive("binding self-test (round trip) failed: %s" % res)
     if res["good-emit"] or res["good-enc"] or not res["bad-emit"] or not res["bad-enc"]:
         raise core.Inconclusive("binding self-test failed: %s" % res)
     return ("EmitSchemaTrace(Strict) accepts a genuine emitted-document record and a genuine encoding record, and rejects them once a "
-            "`required` flag of the recorded description / the recorded validator verdict is flipped")
+            "`required` flag of the recorded description / the recorded validator verdict / a `required` flag of the re-parsed schema is flipped")
 
 
 ASSUMPTIONS = [
@@ -896,6 +1141,15 @@ ASSUMPTIONS = [
     "configuration of internal/codegen/openapi.go",
     "packages that cog cannot generate or that do not compile are excluded from the encoding clause and counted; their emitted documents "
     "are still judged",
-    "maps with non-string keys, constant references, intersections and composable slots have no spelling in the three input formats "
-    "used here and are outside the universe",
+    "maps with non-string keys, constant references and composable slots have no spelling in the three input formats used here and are "
+    "outside the universe; an IR intersection is read as the struct with all its branches' fields",
+    "thorough tier: plus the schemas of EmitSchemaMC!TList (three packages, aliases, mutual recursion, defaults of every value type, "
+    "required-ness x nullability x default grids, unions, intersections) and NSIM seeded `tlc -simulate` draws from the large catalogue "
+    "(every leaf kind x every position; defaults x required-ness x nullability); the output option `compact` alternates with the schema id",
+    "round trip: the emitted document read back by cog's own parser is compared (names, required-ness, constraints, enum values, "
+    "defaults) for the objects the parser declares - it only follows references from the entry point; one-place invalid documents "
+    "(broken bound, non-member, missing required field, probe values of scalar unions) that the IR rejects must be rejected by the "
+    "emitted document; for packages whose generated Go does not compile the documents themselves stand in for the encodings",
+    "integers beyond 32 bits are carried as exact decimal text (Semantics!JBig); python reads JSON integers exactly; kin-openapi "
+    "validates through float64 (its verdict on such documents is only cross-checked)",
 ]
